@@ -323,6 +323,12 @@ class FnAnalysis:
             return out
         callee = self.pkg.resolve(self.mod, d)
         if callee and (callee in self.pkg.cached):
+            # a cached function may still write through what it is given (compile_template visits the nodes passed as wildcards)
+            s0 = self.pkg.summaries.get(callee)
+            if s0 is not None and s0.mutates:
+                for pname, (val, expr) in self.bind_args(callee, s0, e, args, kwargs).items():
+                    if pname in s0.mutates:
+                        self.write(e.lineno, f"call:{callee}({pname})", ast.unparse(expr)[:60], val)
             return AV("SHARED", params={callee})      # params field = which caches the object may come from
         if d in PASS_THROUGH or (d and d.split(".")[-1] in ("walk", "walk_wildcard", "walk_sequence", "filter_nodes")):
             v = None
@@ -337,13 +343,7 @@ class FnAnalysis:
             if s is not None:
                 # writes through parameters at this call site
                 fnode = self.pkg.funcs[callee][1]
-                names = s.params
-                bound = {}
-                for i, a in enumerate(args):
-                    if i < len(names):
-                        bound[names[i]] = (a, e.args[i])
-                for k, a in kwargs.items():
-                    bound[k] = (a, next(kw.value for kw in e.keywords if kw.arg == k))
+                bound = self.bind_args(callee, s, e, args, kwargs)
                 for pname in s.mutates:
                     if pname in bound:
                         self.write(e.lineno, f"call:{callee}({pname})", ast.unparse(bound[pname][1])[:60], bound[pname][0])
@@ -514,9 +514,48 @@ class FnAnalysis:
                 self.write(n.lineno, d, ast.unparse(n.args[0])[:60], self.ev(n.args[0], env))
             elif isinstance(n.func, ast.Attribute) and n.func.attr in ("visit", "generic_visit") and n.args and not isinstance(n.func.value, ast.Name) or \
                     (isinstance(n.func, ast.Attribute) and n.func.attr == "visit" and n.args and isinstance(n.func.value, ast.Name) and n.func.value.id not in ("self",)):
-                self.write(n.lineno, "transformer.visit", ast.unparse(n)[:60], self.ev(n.args[0], env))
+                # a transformer class of the package that defines its own visit(): use what that method does to its argument
+                own = None
+                if isinstance(n.func.value, ast.Name) and n.func.attr == "visit":
+                    for st_ in ast.walk(self.fn):
+                        if isinstance(st_, ast.Assign) and len(st_.targets) == 1 and isinstance(st_.targets[0], ast.Name) and st_.targets[0].id == n.func.value.id \
+                                and isinstance(st_.value, ast.Call) and isinstance(st_.value.func, ast.Name):
+                            key_ = f"{self.mod}.{st_.value.func.id}.visit"
+                            if key_ in self.pkg.summaries:
+                                own = self.pkg.summaries[key_]
+                if own is not None:
+                    pnames = [p_ for p_ in own.params if p_ != "self"]
+                    if pnames and pnames[0] in own.mutates:
+                        self.write(n.lineno, "transformer.visit", ast.unparse(n)[:60], self.ev(n.args[0], env))
+                else:
+                    self.write(n.lineno, "transformer.visit", ast.unparse(n)[:60], self.ev(n.args[0], env))
             elif d in ("setattr",) and n.args:
                 self.write(n.lineno, "setattr", ast.unparse(n.args[0])[:60], self.ev(n.args[0], env))
+
+    def bind_args(self, callee, s, e, args, kwargs):
+        """parameter name -> (abstract value, argument expression); keyword arguments that name no parameter go to the **kwargs parameter,
+        surplus positional arguments to the *args parameter (joined)"""
+        fnode = self.pkg.funcs[callee][1]
+        a = fnode.args
+        named = [x.arg for x in a.posonlyargs + a.args]
+        kwonly = [x.arg for x in a.kwonlyargs]
+        bound = {}
+        for i, v in enumerate(args):
+            if i < len(named):
+                bound[named[i]] = (v, e.args[i])
+            elif a.vararg:
+                old_ = bound.get(a.vararg.arg)
+                bound[a.vararg.arg] = (join(old_[0], v) if old_ else v, e.args[i])
+        for k, v in kwargs.items():
+            expr = next(kw.value for kw in e.keywords if kw.arg == k)
+            if k in named or k in kwonly or k is None:
+                bound[k if k is not None else (a.kwarg.arg if a.kwarg else "**")] = (v, expr)
+            elif a.kwarg:
+                old_ = bound.get(a.kwarg.arg)
+                bound[a.kwarg.arg] = (join(old_[0], v) if old_ else v, expr)
+            else:
+                bound[k] = (v, expr)
+        return bound
 
     # ---------------------------------------------------------------- statements
     def block(self, stmts, env):
